@@ -154,3 +154,48 @@ func vh_C19_family() {
 	}
 	vReach("history")
 }
+
+// vh_C19_equal: two symbols are equal exactly when their names are equal:
+// two interned names of 1..3 symbolic bytes each (letters and digits, so that
+// names with numeric tails like a7 / a07 are in range), compared through
+// Compare and through the script-level == and != and as list elements.
+func vh_C19_equal() {
+	vFormatOpaque(true)
+	env := vEnvs(1)[0]
+	name := func(tag string) string {
+		n := 1 + vChoice(tag+"len", 3)
+		b := make([]byte, n)
+		for i := range b {
+			c := vUint8(tag)
+			// a letter from a small pool or a digit
+			vAssume(c == 'a' || c == 't' || c == '_' || (c >= '0' && c <= '9'))
+			if i == 0 {
+				vAssume(c == 'a' || c == 't' || c == '_')
+			}
+			b[i] = c
+		}
+		return string(b)
+	}
+	na, nb := name("x"), name("y")
+	sa, sb := env.MakeSymbol(na), env.MakeSymbol(nb)
+	sameName := na == nb
+	c, err := env.Compare(sa, sb)
+	vAssert(err == nil, "symbols-compare-without-error")
+	if err == nil {
+		vAssert((c == 0) == sameName, "symbols-equal-iff-names-equal")
+	}
+	q := func(x Sexp) Sexp { return vL(vS(env, "quote"), x) }
+	r, err2, p := vEval(env, vL(vS(env, "=="), q(sa), q(sb)))
+	vAssert(!p && err2 == nil, "symbol-equality-evaluates")
+	if !p && err2 == nil {
+		b, isB := r.(*SexpBool)
+		vAssert(isB && b.Val == sameName, "script-equality-iff-names-equal")
+	}
+	r2, err3, p3 := vEval(env, vL(vS(env, "=="), q(vL(sa, vI(1))), q(vL(sb, vI(1)))))
+	if !p3 && err3 == nil {
+		b, isB := r2.(*SexpBool)
+		vAssert(isB && b.Val == sameName, "list-equality-iff-names-equal")
+	}
+	vAssert((sa.number == sb.number) == sameName, "numbers-equal-iff-names-equal")
+	vReach("equal")
+}
